@@ -1,7 +1,11 @@
 #!/bin/bash
-# Build the framework offline from files on disk: regenerate tables from /repo, build all proofs and the driver.
+# Build the framework offline from files on disk: regenerate tables and the source translation from /repo,
+# build all proofs, the model driver and the driver of the translated source.
 set -e
 cd "$(dirname "$0")"
 /venv/bin/python tools/gen_tables.py --repo "${CVSS_REPO:-/repo}" || true
+/venv/bin/python tools/gen_code.py --repo "${CVSS_REPO:-/repo}" > /dev/null || true
 cd lean
 lake build Cvss driver 2>&1 | tail -5
+# source tie (an addition to the registered tie: failing to build it must not fail the setup)
+lake build codedriver Cvss.Props.CodeTie2 Cvss.Props.CodeTie3 Cvss.Props.CodeTie4 2>&1 | tail -3 || true
